@@ -588,13 +588,14 @@ def run_runtime(pid, tier, seed):
 # C17: execution modes and pools
 # ------------------------------------------------------------------------------------------------------
 
-MODE_NAMES = ['coro', 'inline', 'thread', 'process']
+MODE_NAMES = ['coro', 'inline', 'thread', 'process', 'ncoro']      # ncoro: coroutine body + non_async tag
 
 
 def with_modes(prog, modes, tag):
     q = copy.deepcopy(prog)
     for n, m in zip(q['nodes'], modes):
-        n['mode'] = m
+        n['mode'] = 'coro' if m == 'ncoro' else m
+        n['cotag'] = m == 'ncoro'
         if m == 'process':
             # per-attempt plans are kept by the process that runs the body; keep process nodes single-attempt
             n['attempts'] = None
